@@ -206,11 +206,15 @@ def seq_into(c):
 @model(r"^std::vec::from_elem::<")
 def vec_from_elem(c):
     n = c.num(c.args[1], 1)
+    if c.it.track_content and c.it.is_zero_value(c.st, c.args[0]):
+        return [(c.st, Seq(n, None, None, None, ("zeros",)))]
     return [(c.st, Seq(n))]
 
 
 @model(r"^std::vec::Vec::<.*>::(new|with_capacity)$|^smallvec::SmallVec::<.*>::(new|with_capacity)$|^std::string::String::(new|with_capacity)$|^<std::vec::Vec<.*> as std::default::Default>::default$")
 def vec_new(c):
+    if c.it.track_content and "Vec::<u8>" in c.name:
+        return [(c.st, Seq(Lin.const(0), None, EMPTY, None, ("zeros",)))]       # no bytes yet: the empty content
     return [(c.st, Seq(Lin.const(0), None, EMPTY))]
 
 
@@ -247,7 +251,16 @@ def vec_push(c):
         c.st.sys.add_le(n.e, ln + 4)
         _set_len(c, c.args[0], n.e)
     else:
+        cur0 = c.deref(c.args[0]) if c.it.track_content else None
         _set_len(c, c.args[0], ln + 1, add_item=c.args[1] if len(c.args) > 1 else None)
+        if isinstance(cur0, Seq) and cur0.content() is not None and isinstance(c.args[0], Ref) and len(c.args) > 1 and isinstance(c.args[1], Num) \
+                and "Vec::<u8>" in c.name:
+            # a byte vector with known content stays known: one more byte
+            bc = "pushbyte:%s/%d.%d" % (c.fr.id, c.bb, c.part)
+            c.st.cells[bc] = c.args[1]
+            now = c.it.load(c.st, c.args[0].cell, c.args[0].path)
+            if isinstance(now, Seq):
+                c.it.store(c.st, c.args[0].cell, c.args[0].path, Seq(now.len, now.elem, now.items, None, ("cat", cur0.content(), cur0.len, ("cellbyte", bc))))
         if c.it.track_content and isinstance(c.args[0], Ref):
             from absint.interp import event
             a0 = c.args[0]
@@ -258,7 +271,11 @@ def vec_push(c):
 @model(r"^std::vec::Vec::<.*>::resize$")
 def vec_resize(c):
     n = c.num(c.args[1], 1)
+    cur0 = c.deref(c.args[0]) if c.it.track_content else None
     _set_len(c, c.args[0], n)
+    if isinstance(cur0, Seq) and cur0.content() is not None and isinstance(c.args[0], Ref) and len(c.args) > 2 and c.it.is_zero_value(c.st, c.args[2]) \
+            and c.st.sys.entails_ge(n - cur0.len):
+        c.it.store(c.st, c.args[0].cell, c.args[0].path, Seq(n, None, None, None, ("cat", cur0.content(), cur0.len, ("zeros",))))
     return [(c.st, Struct())]
 
 
@@ -770,7 +787,8 @@ def byteorder_rw(c):
     if isinstance(dst, Seq) and dst.view is not None and str(dst.view[0]).startswith("@"):
         from absint.models_content import patch_container
         val = c.args[1] if len(c.args) > 1 else None
-        patch_container(c.it, c.st, dst.view, Lin.const(0), Lin.const(n), ("be", n, val.e if isinstance(val, Num) else None))
+        le = "LittleEndian" in c.name and n > 1
+        patch_container(c.it, c.st, dst.view, Lin.const(0), Lin.const(n), ("be", n, (val.e if isinstance(val, Num) else None) if not le else None, "le" if le else "be"))
         return [(c.st, Struct())]
     c.it.record_write(c.st, dst, Lin.const(0), Lin.const(n), "data")
     return [(c.st, Struct())]
